@@ -139,6 +139,22 @@ Theorem C08_parent_point_is_parent :
 Proof. exact parent_point_spec. Qed.
 Print Assumptions C08_parent_point_is_parent.
 
+(* ... and it is the SMALLEST enclosing list: no point strictly between the
+   parent j and its child k reaches k (its block of indices ends at or before k) *)
+Theorem C08_parent_is_smallest :
+  forall (t : item) (j k : Z), 0 <= j < size t ->
+    (exists pre post, nth_point t j = IList (pre ++ nth_point t k :: post) /\ k = j + 1 + sizes pre) ->
+    forall j', j < j' < k -> j' + size (nth_point t j') <= k.
+Proof. exact parent_is_smallest. Qed.
+Print Assumptions C08_parent_is_smallest.
+
+(* EXTRACT composes: point m of point j is point j + m *)
+Theorem C08_extract_composes :
+  forall (t : item) (j m : Z), 0 <= j < size t -> 0 <= m < size (nth_point t j) ->
+    nth_point t (j + m) = nth_point (nth_point t j) m.
+Proof. exact nth_point_compose. Qed.
+Print Assumptions C08_extract_composes.
+
 (* container = Err(true) when the tree itself matches, Err(false) when nothing
    matches, otherwise the parent of the FIRST preorder occurrence *)
 Theorem C08_container_spec :
